@@ -208,8 +208,22 @@ namespace riddle
         return new_enum_declaration(n, es, trs);
     }
 
+    namespace
+    {
+        constexpr size_t MAX_NESTING = 1000;
+        struct nesting
+        { // keeps track of the nesting depth of the recursive descent..
+            nesting(size_t &d) : d(d) { ++d; }
+            ~nesting() { --d; }
+            size_t &d;
+        };
+    } // namespace
+
     class_declaration *parser::_class_declaration()
     {
+        const nesting c_nesting(depth); // (too deeply nested inputs are rejected instead of exhausting the stack)..
+        if (depth > MAX_NESTING)
+            error("the input is nested too deeply..");
         std::vector<std::vector<id_token>> bcs;          // the base classes..
         std::vector<const field_declaration *> fs;       // the fields of the class..
         std::vector<const constructor_declaration *> cs; // the constructors of the class..
@@ -699,6 +713,9 @@ namespace riddle
 
     statement *parser::_statement()
     {
+        const nesting c_nesting(depth); // (too deeply nested inputs are rejected instead of exhausting the stack)..
+        if (depth > MAX_NESTING)
+            error("the input is nested too deeply..");
         switch (tk->sym)
         {
         case BOOL_ID:
@@ -949,6 +966,9 @@ namespace riddle
 
     expression *parser::_expression(const size_t &pr)
     {
+        const nesting c_nesting(depth); // (too deeply nested inputs are rejected instead of exhausting the stack)..
+        if (depth > MAX_NESTING)
+            error("the input is nested too deeply..");
         expression *e = nullptr;
         switch (tk->sym)
         {
